@@ -401,3 +401,6 @@ def case_scenario(r, obs):
                       "whole framework it is %r"
                       % (pkg, name, label, how, comparable(o) if o else None,
                          comparable(a) if a else None), pre=pre)
+
+
+RULE += (" Star imports are repeated with jinja2 hidden; advertised names bound to a same-named submodule are flagged; scenarios include partially resolvable static contexts for Write and Cache; the repository's tests run under the RAISE monitor.")
